@@ -6,12 +6,15 @@ from oracle_util import *  # noqa
 from protocol import from_real, pm
 
 ID = "C12"
-LEAN_MODULE = None
+LEAN_MODULE = ["SCoda.Props.C13"]
 CLAUSES = [
-    ("one sequence per saved sequence, in the same order", None),
-    ("identical notes (pitch, onset, duration, velocity) per sequence", None),
-    ("time signature in force at every tick on the meta sequence is the one saved (4/4 when the file says nothing at tick 0)", None),
-    ("key signature in force at every tick is the one saved", None),
+    ("one sequence per saved sequence, in the same order", ["SCoda.C13.one_per_group"]),
+    ("save: summing the delta times of the written track puts every emitted event back on its original tick, in order, with pitch and velocity kept "
+     "(the delta buffer is carried across waits and non-emitting messages); at equal resolution loading moves nothing",
+     ["SCoda.C13.toMido_ticks_partial", "SCoda.C13.toMido_ticks_nonneg", "SCoda.C13.round_int", "SCoda.C13.convTrack_ticks", "SCoda.C13.notes_to_group"]),
+    ("the meta sequence has a time signature at tick 0: the saved one, or 4/4 when the file says nothing there", ["SCoda.C13.default_signature", "SCoda.C13.signatures_to_meta_fields"]),
+    ("end-to-end composition save ∘ codec ∘ load = identity on notes and signatures in force (per-track normalise is the identity on well-formed input, "
+     "merge of one sequence, meta merge)", None),
 ]
 RULE = ("lists of 1-3 integer-tick well-formed single-channel sequences (<=6 notes, velocities 1..127, all 15 keys, "
         "signatures at arbitrary ticks on distinct ticks, leading rests); real file round trip through mido in a temp dir; "
